@@ -149,6 +149,7 @@ class Ctx:
         self.traces = 0
         self.notes = {}
         self.model_ok = False      # driver executable available
+        self.harness_errors = []
         self.t0 = time.time()
 
     # -- sizes
@@ -191,6 +192,20 @@ class Ctx:
             return
         if len(self.violations) < 50:
             self.violations.append({'clause': clause, 'witness': witness, 'detail': detail})
+
+    # -- phases: one failing phase must not hide what the others would find
+    def phase(self, fn, *args, **kw):
+        """run one part of a harness; an exception is recorded as a broken obligation (reported by main)
+        and the remaining phases still run"""
+        import traceback
+        try:
+            return fn(*args, **kw)
+        except TimeLimit:
+            raise
+        except Exception as e:
+            traceback.print_exc()
+            self.harness_errors.append('%s: %r' % (getattr(fn, '__name__', 'phase'), e))
+            return None
 
     # -- model driver
     def driver(self, lines, exe=None, timeout=600):
